@@ -122,6 +122,12 @@ def part_model_vs_tokenizer(ctx):
               nontrivial_keys=[s for s, d in zip(sigs, dumps) if len(d) >= 2 and len(s) > 2],
               entries=dict(collections.Counter(min(len(d), 5) for d in dumps)))
     ctx.sample('model-vs-read_input_file', {'text': texts[-1], 'dictionary': dumps[-1]})
+    if failing:   # a difference confined to the Comment field (never consulted by the simulator) is recorded, not reported
+        again = fw.kernel_bools(ctx, 'tokenizer_nc', ['Model.Tokenizer'],
+                                [terms[i].replace('reads_as ', 'reads_as_nocomment ', 1) for i in failing], open_scope='string_scope')
+        if len(again) < len(failing):
+            ctx.note(f'{len(failing) - len(again)} files differ from the model in the Comment field only')
+        failing = [failing[i] for i in again]
     for i in failing[:5]:
         ctx.violate('corr', 'tokenizer:model-disagrees', 'Coq model read_text and GeoPHIRESUtils.read_input_file give different dictionaries',
                     inp={'part': 'tokenizer', 'text': texts[i]}, observed=dumps[i], expected='dump (read_text text) of Model/Tokenizer.v')
